@@ -386,7 +386,9 @@ def strategy():
         elif kind == "retriable":
             sel = draw(st.sampled_from(["add_partitions", "add_offsets", "txn_offset_commit", "end_txn", "produce"]))
             fault = {"sel": sel, "k": draw(st.integers(0, 2)), "act": draw(st.sampled_from(["error", "drop", "apply_drop"])),
-                     "code": draw(st.sampled_from([14, 15, 16] if sel != "produce" else [6, 7]))}
+                     # 51 CONCURRENT_TRANSACTIONS: the previous transaction's markers are still being written
+                     "code": draw(st.sampled_from(([14, 15, 16, 51] if sel != "txn_offset_commit" else [14, 15, 16])
+                                                  if sel != "produce" else [6, 7]))}
         return make_case(seq, fault, waits=draw(st.lists(st.integers(0, 1), min_size=1, max_size=4)),
                          rng_seed=draw(st.integers(0, 2 ** 31)),
                          lat=draw(st.lists(st.sampled_from([0.0005, 0.001, 0.005]), min_size=1, max_size=3)),
